@@ -25,7 +25,7 @@ COMPONENTS = {"real": ["smpl_extract.actions (cue path), cuesheet, cdda/image, u
 ASSUMPTIONS = ["titles are safe unique words (hostile titles are C06's)", "all tracks AUDIO, first indices strictly increasing and inside the bin",
                "what simulation adds over plain generation here is only the torn-tail lengths, the block-size knob and the seam observation"]
 EXPECTED_PROBES = ["minutes_gt_0", "seconds_gt_0", "tail_not_multiple_of_4", "tail_not_multiple_of_2352", "multi_index", "untitled", "tracks_ge_3", "knob_not_default",
-                   "empty_last_track", "cli_crosscheck", "first_track_not_at_zero"]
+                   "empty_last_track", "cli_crosscheck", "first_track_not_at_zero", "exported_twice"]
 SHRINK = {"max_attempts": 300, "max_seconds": 40.0, "simple_values": {"block": [4096]}}
 KNOBS = [4, 8, 64, 510, 4096, 4096, 4096, 8192, 65536]
 CLI_EVERY = 60
@@ -143,6 +143,14 @@ def run(sc: dict) -> RunResult:
             if er.budget:
                 res.add(PROP, "no_result", "export exceeded the step budget")
             check_tracks(res, PROP, model, er)
+            if sc.get("twice", True) and not res.violations:
+                # the same opened image exported once more must tile the bin in the same way
+                er_b = tool.run_export(image, sb, "again")
+                if tree_digest(er_b.tree) != tree_digest(er.tree):
+                    check_tracks(res, PROP, model, er_b, ctx="[second export of the same image] ")
+                    if not res.violations:
+                        res.add(PROP, "second_export_differs", "second export of the same opened image differs from the first")
+                res.probes["exported_twice"] += 1
             if er.escapes:
                 res.add(PROP, "write_outside_destination", repr(er.escapes[:3]))
     sfs = list(vfs.simfiles.values())
